@@ -801,6 +801,13 @@ func (e *Env) call(n *ast.CallExpr) tv {
 	// type conversion
 	if t := e.resolveType(n.Fun); t != nil && len(n.Args) == 1 {
 		a := e.eval(n.Args[0])
+		if types.IsInterface(t) && a.T != nil && !types.IsInterface(a.T) {
+			// conversion of a value whose payload is the value itself (pointers, ...) to an interface
+			if at, ok := a.V.(*Term); ok && payloadIsValue(a.T) {
+				return tv{IfaceV{tagTerm(a.T), at}, t}
+			}
+			evalFail("conversion of %s to an interface is not supported in contracts", a.T)
+		}
 		if at, ok := a.V.(*Term); ok {
 			s, _ := scalarSort(t)
 			if s != nil && s.Kind == SBV && at.Op == "int" {
